@@ -184,6 +184,10 @@ def lean_check(prop, thorough):
 
 
 # ------------------------------------------------------------------ harness side (S)+(I)
+OBJ_CLASSES = {'C01': ['Epoch'], 'C02': ['Epoch'], 'C10': ['Epoch'], 'C16': ['Epoch'], 'C19': ['Epoch'],
+               'C03': ['Angle'], 'C04': ['Angle'], 'C12': ['Interpolation', 'Angle'], 'C17': ['CurveFitting']}
+
+
 def _shard(args):
     prop, tier, seed, scale, hot, shard, nshards = args
     try:
@@ -202,6 +206,10 @@ def _shard(args):
             except Exception:      # noqa: the noise is an extra; without the effect skeleton there is none
                 ctx.noise = None
         mod.generate(ctx, shard, nshards)
+        if shard == 0 and prop != 'C20':
+            # object-history checks for the stateful classes this property's functions take or return
+            import objhistory
+            objhistory.check(ctx, OBJ_CLASSES.get(prop, ['Angle', 'Epoch']), n=int(120 * min(scale, 4)))
         if ctx.noise is not None:
             ctx.notes.append('history noise: %d calls of %d distinct public functions in %.1f s' % (
                 ctx.noise.calls, len(ctx.noise.names), ctx.noise.spent))
@@ -297,7 +305,11 @@ def main():
         if case.get('kind') == 'no-failing-input-found':
             log('replay file names broken obligations, no concrete input:', json.dumps(case.get('broken'))[:2000])
             sys.exit(1)
-        still, detail = mod.replay(case)
+        if case.get('predicate') == 'object_history_consistent':
+            import objhistory
+            still, detail = objhistory.replay(case['input'])
+        else:
+            still, detail = mod.replay(case)
         log(json.dumps(detail, default=str)[:4000])
         if still:
             log('VIOLATION property=%s replay=%s' % (prop, sys.argv[3]))
